@@ -15,7 +15,9 @@ import (
 	"time"
 
 	"github.com/piotrnar/gocoin/client/common"
+	"github.com/piotrnar/gocoin/client/network"
 	"github.com/piotrnar/gocoin/client/txpool"
+	"github.com/piotrnar/gocoin/client/usif"
 	"github.com/piotrnar/gocoin/lib/btc"
 	"github.com/piotrnar/gocoin/lib/chain"
 	"github.com/piotrnar/gocoin/lib/script"
@@ -56,6 +58,8 @@ type World struct {
 	failed     bool
 	propFailed bool // the property predicate itself has failed (not only the comparison with the model)
 	notFullRBF bool
+	ring       int  // CFG.TXPool.RejectRecCnt of this world
+	noMem      bool // CFG.TXPool.AllowMemInputs = false: untrusted peers may only spend confirmed outputs (NOT_MINED otherwise)
 	dead       bool // a real operation did not return: nothing more can be done in this process
 	immature   *chainkit.Coin
 	envAbort   bool
@@ -74,6 +78,7 @@ type World struct {
 	pendOps  []func() string // oracle lines (built when the event comes: the fee floor in force is part of them) of the chain events of this commit, one per BlockUndone / BlockMined callback, in order
 	midProb  int             // probability (percent) that "another thread" lists and inspects the pool right after such a callback
 	gm       *vlib.Rng       // the stream deciding that (does not disturb the operation generator)
+	gx       *vlib.Rng       // the stream of the boundary / deep-orphan / re-submission extras of random histories (boundaries.go)
 	prevR    string          // the real reject ring (dump section R) at the previous verified state
 	note     string          // context put in front of every report (e.g. "after MempoolLoad refused …")
 	mid      string          // "" | "mined" | "undone": verify() runs inside a commit, after that kind of callback
@@ -106,12 +111,14 @@ func hid(h [32]byte) string { return hex.EncodeToString(h[:]) }
 
 // newWorld builds the chain (nblocks of coinbases to OP_TRUE + funding outputs to the harness key), wires the
 // client globals and starts a fresh oracle.
-func newWorld(r *vlib.Run, g *vlib.Rng, name string, notFullRBF bool) *World {
+func newWorld(r *vlib.Run, g *vlib.Rng, name string, notFullRBF bool, opt worldOpt) *World {
+	noMem := opt.noMem
 	defer prof("newWorld")()
-	w := &World{r: r, g: g, name: name, txs: map[[32]byte]*txInfo{}, ledger: map[btc.TxPrevOut]*chainkit.Coin{}, keys: map[string]*chainkit.Key{}, notFullRBF: notFullRBF,
+	w := &World{r: r, g: g, name: name, txs: map[[32]byte]*txInfo{}, ledger: map[btc.TxPrevOut]*chainkit.Coin{}, keys: map[string]*chainkit.Key{}, notFullRBF: notFullRBF, noMem: noMem,
 		twins: map[[32]byte][]*txInfo{}, cbTold: map[[32]byte]bool{}, old: map[[32]byte]int64{}}
 	w.gv = g.Fork()
 	w.gm = w.gv.Fork()
+	w.gx = w.gm.Fork()
 	w.midProb = 100
 	if strings.HasPrefix(name, "random") {
 		w.skipList = 40
@@ -137,10 +144,15 @@ func newWorld(r *vlib.Run, g *vlib.Rng, name string, notFullRBF bool) *World {
 	common.BlockChain = k.Ch
 	common.GocoinHomeDir = k.Dir
 	common.CFG.TXPool.Enabled = true
-	common.CFG.TXPool.AllowMemInputs = true
+	common.CFG.TXPool.AllowMemInputs = !noMem
 	common.CFG.TXPool.NotFullRBF = notFullRBF
 	common.CFG.TXPool.MaxTxWeight = 400e3
-	common.CFG.TXPool.RejectRecCnt = ringCap
+	w.ring = ringCap
+	if opt.ring != 0 {
+		w.ring = opt.ring
+		r.Hit(fmt.Sprintf("world:reject-ring-%d", w.ring))
+	}
+	common.CFG.TXPool.RejectRecCnt = uint16(w.ring)
 	common.CFG.TXPool.SaveOnDisk = true
 	common.TxExpireAfter = expireAfter
 	common.MaxRejectedSizeBytes = 1 << 40
@@ -160,7 +172,11 @@ func newWorld(r *vlib.Run, g *vlib.Rng, name string, notFullRBF bool) *World {
 		os.Exit(3)
 	}
 	w.o = o
-	w.mustOK(fmt.Sprintf("cfg 1 %s 400000 %d", b01(notFullRBF), ringCap))
+	w.mustOK(fmt.Sprintf("cfg %s %s 400000 %d", b01(!noMem), b01(notFullRBF), w.ring))
+	if noMem {
+		r.Hit("world:allow-mem-inputs-off")
+	}
+	w.checkConsts()
 
 	// setup chain: 8 coinbases, then 100 more so that they mature, then fan the 8 out into funding coins
 	var cbs []*btc.Tx
@@ -216,7 +232,21 @@ func (w *World) syncTip() {
 	common.Last.Block = w.k.Ch.LastBlock()
 	common.Last.Mutex.Unlock()
 	common.UpdateScriptFlags(0)
+	w.syncReceived()
 	w.mustOK(fmt.Sprintf("tip %d", common.Last.Block.Height))
+}
+
+// syncReceived: every block of the index has its network.ReceivedBlocks record, as in the client (client/main.go fills
+// the map from BlockChain.BlockIndex at start-up, and every block that arrives later gets its record before it is
+// committed). usif.LoadRawTx → DecodeTx → GetAverageFee reads the record of the tip block.
+func (w *World) syncReceived() {
+	network.MutexRcv.Lock()
+	for k, v := range w.k.Ch.BlockIndex {
+		if network.ReceivedBlocks[k] == nil {
+			network.ReceivedBlocks[k] = &network.OneReceivedBlock{TmStart: time.Unix(int64(v.Timestamp()), 0)}
+		}
+	}
+	network.MutexRcv.Unlock()
 }
 
 func (w *World) close() {
@@ -384,20 +414,17 @@ func (w *World) submit(ti *txInfo, mode string) (code int) {
 		})
 	case "local":
 		want = w.ask(fmt.Sprintf("local %s %d", hid(tx.Hash.Hash), minfee))
-		pan, hung = w.guarded("SubmitLocalTx", func() {
+		var text string
+		var wasPooled bool
+		pan, hung = w.guarded("usif.LoadRawTx", func() {
 			txpool.TxMutex.Lock()
-			txpool.DeleteRejectedByIdx(bidx, false)
+			_, wasPooled = txpool.TransactionsToSend[bidx]
 			txpool.TxMutex.Unlock()
-			if why := txpool.NeedThisTxExt(&tx.Hash, nil); why != 0 {
-				real = 1000 + why
-				return
-			}
-			if txpool.SubmitLocalTx(tx, ti.raw) {
-				real = 0
-			} else {
-				real = -2 // refused; the reason is only visible in the rejected list
-			}
+			quiet(func() { text = usif.LoadRawTx(ti.raw) }) // the web / text UI's "load transaction": the real function, raw bytes in
 		})
+		if !hung && pan == "" {
+			real = w.loadRawResult(text, bidx, wasPooled)
+		}
 	}
 	w.r.Hit("op:submit-" + mode)
 	if hung {
@@ -406,6 +433,11 @@ func (w *World) submit(ti *txInfo, mode string) (code int) {
 	}
 	if pan != "" {
 		w.propFail("panic:submit", "submitting "+tx.Hash.String()+" ("+mode+"): "+pan)
+		if !txpool.TxMutex.TryLock() {
+			w.dead = true // the panic left TxMutex locked: nothing more can be done in this process
+		} else {
+			txpool.TxMutex.Unlock()
+		}
 		return -1
 	}
 	wc, _ := strconv.Atoi(want)
@@ -421,6 +453,74 @@ func (w *World) submit(ti *txInfo, mode string) (code int) {
 	}
 	w.verify()
 	return real
+}
+
+// loadRawResult turns what usif.LoadRawTx did into the model's reply code: 0 pooled now, 1000+why not wanted, the reject
+// reason when the pool has refused it with a record, -2 when it has refused it without one (the reason is then not
+// visible). The code is taken from the message LoadRawTx returns and cross-checked against the pool.
+func (w *World) loadRawResult(text string, bidx btc.BIDX, wasPooled bool) (real int) {
+	txpool.TxMutex.Lock()
+	_, pooled := txpool.TransactionsToSend[bidx]
+	rec := txpool.TransactionsRejected[bidx]
+	txpool.TxMutex.Unlock()
+	num := func(after string) int {
+		i := strings.LastIndex(text, after)
+		if i < 0 {
+			return -1
+		}
+		f := strings.Fields(text[i+len(after):])
+		if len(f) == 0 {
+			return -1
+		}
+		n, err := strconv.Atoi(f[0])
+		if err != nil {
+			return -1
+		}
+		return n
+	}
+	real = -2
+	switch {
+	case strings.Contains(text, "not needed or not wanted"):
+		if why := num("not needed or not wanted"); why > 0 {
+			real = 1000 + why
+		} else if wasPooled {
+			real = 1001
+		}
+		w.r.Hit("loadrawtx:not-wanted")
+		if pooled {
+			w.r.Hit("loadrawtx:pooled-tx-made-own")
+		}
+	case strings.Contains(text, "added to the memory pool"):
+		real = 0
+		w.r.Hit("loadrawtx:added")
+	case strings.Contains(text, "Transaction rejected"):
+		if n := num("Transaction rejected"); n > 0 {
+			real = n
+		} else if rec != nil {
+			real = int(rec.Reason)
+		}
+		w.r.Hit("loadrawtx:rejected")
+	case strings.Contains(text, "Could not decode"):
+		w.tieFail("loadrawtx-decode", "usif.LoadRawTx cannot decode a transaction the harness built: "+strings.TrimSpace(text))
+	default: // a message this harness does not know: judge by the pool alone
+		w.r.Hit("loadrawtx:unknown-message")
+		switch {
+		case wasPooled:
+			real = 1001
+		case pooled:
+			real = 0
+		case rec != nil:
+			real = int(rec.Reason)
+		}
+	}
+	// LoadRawTx's own report against the pool it has just changed
+	if real == 0 && !pooled {
+		w.propFail("loadrawtx-report", "usif.LoadRawTx reports a transaction as added to the memory pool that is not there")
+	}
+	if real != 0 && real < 1000 && pooled {
+		w.propFail("loadrawtx-report", "usif.LoadRawTx reports a transaction as rejected that is in the memory pool")
+	}
+	return
 }
 
 func codeName(real, model int) string {
@@ -1105,7 +1205,7 @@ func realDump(pan bool) map[string]string {
 // the previous verified state.
 func (w *World) ringOverrun(r string) bool {
 	f := strings.Fields(r)
-	if len(f) < ringCap-1 {
+	if len(f) < w.ring-1 {
 		return false
 	}
 	prev := map[string]bool{}
@@ -1524,6 +1624,7 @@ func (w *World) checkTemplate(listing []*txpool.OneTxToSend) {
 			break
 		}
 		if w.txs[t.Hash.Hash] == nil {
+			w.propFail("template-unknown-tx", "the listing contains "+t.Hash.String()+", a transaction that was never handed to the pool")
 			return
 		}
 		tx, n := btc.NewTx(t.Raw) // the record's own bytes, as the node would put them into a block
